@@ -115,6 +115,16 @@ def run_check_completions(S, case):
         # only outstanding jobs that were not yet seen complete can complete in this call; which of them did is read off after the call
         want = failure_closure(out0, queued0)
         got = {j.name for j in queued0 if j.g_canceled}
+        # C02 oracle: a job that stays queued loses a blocker only when that blocker has an outcome (complete outstanding job, or a queued job
+        # canceled here); otherwise it would be started before the blocker has finished
+        outcome = {j.name for j in out0 if j.g_done} | got
+        for j in queued0:
+            if not j.g_canceled:
+                lost = j.blocking0 - set(j.get_blocking_jobs()) - outcome
+                if lost:
+                    r["ok"] = False
+                    r["failed"].append(f"C02: queued job {j.name} no longer waits for {sorted(lost)}, which have no outcome yet "
+                                       f"(blockers before {sorted(j.blocking0)}, after {sorted(j.get_blocking_jobs())}, with outcome {sorted(outcome)})")
         if got != want:
             r["ok"] = False
             r["failed"].append(f"C04: canceled queued jobs {sorted(got)} != flagged jobs with a failed blocker, transitively {sorted(want)} "
